@@ -173,5 +173,6 @@ def scenario(B, case):
     checks.compare_joint(B, W, pre, post, ts, lambda rho, d, pos: ref.kraus(rho, d, pos, Kref), "C06", renorm=False)
     checks.check_wf(B, W, post, "C06/wf", unit=exact)
     b = post.block_of(ts[0])
-    B.require_structural(b is not None and b.level == h.ExpansionLevel.Matrix,
+    # (with automatic contraction on, a result that is pure may legitimately be contracted: "unless it is provably pure")
+    B.require_structural(case["world"].get("contraction") or (b is not None and b.level == h.ExpansionLevel.Matrix),
                          f"C06: channel result of {case['targets']} is held as a density matrix (level {b.level if b else None})")
